@@ -287,6 +287,17 @@ def synthetic_zones(rng, tier):
     mk("syn_type0_dst_first", b"<-03>3", times=[-1000000000, -990000000, -970000000, -960000000], idx=[0, 1, 0, 1],
        types=[(-7200, 1, 4), (-10800, 0, 0)], ab=b"-03\0-02\0")
     mk("syn_late", b"STD5DST,M3.2.0,M11.1.0", times=[t0, 4102444800 * 3], idx=[1, 2])
+    # a big-bang entry whose type is NOT the before-first-transition type (type 0 = LMT is unreferenced): outside
+    # wf_ast, but the two enumeration directions must still agree and the sentinel must not be reported
+    mk("syn_bigbang_std", b"STD5DST,M3.2.0,M11.1.0", times=[BIG_BANG, t0 + 1000, 100000000, 110000000], idx=[1, 1, 2, 1])
+    # F9-family shape that fills ExtendTransitions' reservation exactly (one transition in 1500, both rule
+    # transitions of that year still to come): the 2^31-1 sentinel is appended at size() == capacity()
+    mk("syn_1500_rule", b"AAA0BBB,M6.1.0,M9.1.0", std=0, dst=3600, times=[-14831769600], idx=[1],
+       types=[(1234, 0, 0), (0, 0, 4), (3600, 1, 8)], ab=b"LMT\0AAA\0BBB\0")
+    # last transition before 1970 but after 1570 with a DST rule (zic -b slim output for rules unchanged since the
+    # 1960s): NOT the F9 family - the generated years run past 1970, every instant follows the rule
+    mk("syn_pre1970", b"STD5DST,M4.5.0,M10.5.0", times=[t0, -116442000, -100116000], idx=[1, 2, 1])
+    mk("syn_pre1970b", b"STD5DST,M4.5.0,M10.5.0", times=[t0, -11644473600], idx=[1, 1])
     # one abbreviation stored twice (finding F14, fixed): types 1 and 3 differ only in abbr_index, so the
     # transitions between them change nothing and must not be reported; also a footer matching such a type
     mk("syn_dupabbr", b"STD5", times=[t0, 100000000, 110000000, 120000000], idx=[1, 3, 1, 3],
@@ -354,6 +365,13 @@ def gen_c03(tier, rng):
         inst, offs, rule = probe_instants(data, tier, rng)
         for t in sorted(set(inst)):
             cases.append("rt %s %d" % (zid, t))
+        # the converse half: civil seconds (in every offset of the zone, so gaps and overlaps are hit) -> the
+        # instants returned must display them
+        civ = civil_probes(sorted(set(inst)), sorted(set(offs + ([rule[0], rule[1]] if rule else []))), tier, rng)
+        if tier == "quick" and len(civ) > 140:
+            civ = civ[:40] + rng.sample(civ[40:], 100)
+        for cs in civ:
+            cases.append("dsp %s %s" % (zid, fmt_cs(cs)))
     return cases, zones
 
 
@@ -402,6 +420,16 @@ def gen_c11(tier, rng):
             cases.append("pt %s %d" % (zid, t))
         cases.append("chain %s" % zid)
     return cases, zones
+
+
+def post_c11(cases, impl):
+    """on EVERY loadable zone, well-formed or not: the chain of next_transition from min() and the chain of
+    prev_transition from max() enumerate the same set (the harness prints B=1 when they do)"""
+    bad = []
+    for i, (c, il) in enumerate(zip(cases, impl)):
+        if c.startswith("chain ") and " B=0" in il:
+            bad.append((i, "next_transition chain from min() and prev_transition chain from max() differ: " + il[:120]))
+    return bad
 
 
 # ---------------------------------------------------------------------------
@@ -630,8 +658,11 @@ def panel(zid, rng):
 def gen_c12(tier, rng):
     bases = real_zones("quick", rng) + synthetic_zones(rng, tier)
     n = 1200 if tier == "quick" else 60000
-    zones = list(handcrafted_c12())
+    # the unmutated synthetic files first: unusual but well-formed shapes (reservation exactly filled, big-bang
+    # entries, footers beyond 24 h, duplicate abbreviations ...) loaded and queried under the sanitizers
+    zones = list(handcrafted_c12()) + [("u_" + z, d) for z, d in synthetic_zones(rng, tier)]
     k = 0
+    n += len(zones)
     while len(zones) < n:
         zid, data = rng.choice(bases)
         m = mutate(data, rng)
